@@ -213,6 +213,10 @@ impl<B> Call<WithoutBody, B> {
 
         self.state.skip_method_body_check = true;
 
+        // A body is coming. Unless headers say otherwise (see analyze) it is chunked,
+        // same as for methods that normally have a body.
+        self.state.writer = BodyWriter::new_chunked();
+
         Call {
             request: self.request,
             analyzed: self.analyzed,
